@@ -1408,6 +1408,14 @@ class Interp:
         bt = batch_tag(l, r)
         if bt and out.kind not in ("str",):
             out.tags = out.tags | bt
+        if l.kind == "set" or r.kind == "set":
+            out.tags = out.tags | ret_tags(l, r)        # set algebra keeps the provenance of its operands
+        if isinstance(op, ast.Sub):
+            # x_{i+1} - x_i over the rows in the order given: a comparison of *consecutive* rows only
+            for a_, b_ in ((l, r), (r, l)):
+                rg = [t for t in a_.tags if isinstance(t, tuple) and t and t[0] == "roll-given"]
+                if rg and rg[0][1] == tuple(sorted(b_.pdeps)) and rg[0][2] == tuple(sorted(b_.deps)):
+                    out.tags = out.tags | {("ret", "<neighbour-diff>")}
         return out
 
     def _binop(self, op, l: Val, r: Val, st, node) -> Val:
